@@ -12,9 +12,17 @@ Search (oracle: NumPy values + the documented resolution of the spec followed by
   source, TasksRechunk, pushed through elemwise / transpose / concatenate / expand_dims, composed with slices,
   rechunk of rechunk), unknown sizes (allowed along unchanged axes, ValueError along changed ones), and rechunk at
   random positions of random programs.
+  Call histories: the same rechunk (same array layout, spec, kwargs) repeated under a SEQUENCE of configurations in one
+  process (array.chunk-size, array.chunk-size-tolerance, array.rechunk.threshold; fresh or the same array object; every
+  order incl. A,B,A): .chunks == normalize_chunks under the configuration IN EFFECT at the call == the same call with
+  block_size_limit= the limit in force; brute-force byte budget per block; the layout settled at the call survives a later
+  configuration (advertised == optimized == produced blocks, values == NumPy); the layout of the last step == the layout the
+  same call gives as the first call of a NEW interpreter (history independence, whatever a memo is keyed on).
+  Huge lazy arrays (axes 2**53 … 2**62, da.zeros metadata only): explicit spec kinds against a brute-force integer walk.
 Failure signatures: rechunk:chunks, rechunk:chunks:optimize[-drops-balance|-size1-zero-width], rechunk:values, rechunk:raises, rechunk:raises:zero-width,
   rechunk:unknown-values, rechunk:unknown-not-refused, rechunk:unknown-raises, program:values, program:chunks, program:raises,
-  rechunk:nested:*, rechunk:dict-none:*, rechunk:history:* (each :chunks / :optimize / :values / :raises).
+  rechunk:nested:*, rechunk:dict-none:*, rechunk:history:* (each :chunks / :optimize / :values / :raises),
+  rechunk:config:chunks / :explicit-limit / :differs-from-fresh-process / :budget / :late-chunks / :optimize / :values / :raises, rechunk:huge:chunks / :optimize / :raises.
 Extra classes: nested rechunks (balance at either level, above elemwise/transpose/...), dict specs with an explicit None on a
   multi-chunk axis (negative keys, above elemwise, unknown sizes), history (same array, same resolved spec, with and without
   balance, both alive); for each: advertised .chunks == documented == optimized .chunks == shapes of the produced blocks.
@@ -595,6 +603,371 @@ def search_extra(ctx):
             ctx.sample({"case": case})
 
 
+# ------------------------------------------------- call histories (configuration sequences)
+
+CFG_SIZE, CFG_TOL, CFG_THR = "array.chunk-size", "array.chunk-size-tolerance", "array.rechunk.threshold"
+
+
+def _parse_bytes(v):
+    from dask.utils import parse_bytes
+
+    return parse_bytes(v) if isinstance(v, str) else int(v)
+
+
+def resolve_axes(spec, xchunks):
+    """Per-axis view of a rechunk spec (documentation: scalar -> every axis; dict -> listed axes, negative keys count
+    from the end, missing / None keep x's chunks; tuple -> per axis, None keeps)."""
+    nd = len(xchunks)
+    if isinstance(spec, dict):
+        d = {(k + nd if k < 0 else k): v for k, v in spec.items()}
+        ax = [d.get(i) for i in range(nd)]
+    elif isinstance(spec, (tuple, list)):
+        ax = list(spec)
+    else:
+        ax = [spec] * nd
+    return [tuple(xc) if a is None else a for a, xc in zip(ax, xchunks)]
+
+
+def fresh_rechunk_chunks(items):
+    """Runs in a NEW interpreter (harness.props_ext.fresh_process): for each case the rechunk under its LAST
+    configuration only, as the first rechunk of that array layout / spec in the process."""
+    import dask
+
+    seen, out = set(), []
+    for case in items:
+        key = repr([case[k] for k in ("shape", "chunks", "dtype", "wrap", "spec", "kw")])
+        if key in seen:
+            out.append(None)
+            continue
+        seen.add(key)
+        try:
+            with warnings.catch_warnings():
+                warnings.simplefilter("ignore")
+                with dask.config.set(case["configs"][-1]):
+                    b, _ = build(case)
+                    out.append([list(c) for c in b.rechunk(dec_spec(case["spec"]), **case.get("kw", {})).chunks])
+        except Exception as e:  # noqa: BLE001
+            out.append("err " + type(e).__name__)
+    return out
+
+
+def compare_with_fresh(ctx, items):
+    """items: [(case, chunks of the LAST step as seen in this process)]"""
+    from harness.props_ext.fresh_process import run_fresh
+
+    if not items:
+        return
+    fresh = run_fresh("C14", "fresh_rechunk_chunks", [c for c, _ in items])
+    n = 0
+    for (case, got), f in zip(items, fresh):
+        if f is None or isinstance(f, str):
+            continue
+        n += 1
+        here = [list(c) for c in got]
+        if here != f:
+            ctx.fail("rechunk:config:differs-from-fresh-process", dict(case, step=len(case["configs"]) - 1, fresh_check=True, got=repr(here), want=repr(f)),
+                     "x.rechunk(spec).chunks after other configurations were used in this process differs from what the same call "
+                     "(same array layout, spec, configuration) gives as the first call of a new interpreter")
+    ctx.notes["cfgseq_compared_with_fresh_interpreter"] = ctx.notes.get("cfgseq_compared_with_fresh_interpreter", 0) + n
+
+
+def check_cfgseq_case(ctx, case, collect=None):
+    """The same rechunk under each configuration of case["configs"] in turn.  case["reuse"]: the same array object
+    for every step (else a fresh, equal one).  Every oracle is evaluated under the configuration in effect at the call."""
+    import dask
+    from fractions import Fraction
+
+    spec = dec_spec(case["spec"])
+    kw = dict(case.get("kw", {}))
+    layouts = []
+    b0 = None
+    pending = None  # (step, y, got, ref) of the previous step: re-examined under the NEXT configuration
+    sig = "rechunk:config"
+
+    def late(i, y, got, ref, where):
+        here = dict(case, step=i, examined=where)
+        try:
+            now = tuple(tuple(c) for c in y.chunks)
+            opt = tuple(tuple(c) for c in y.optimize().chunks)
+            blk = block_chunks(y)
+            val = y.compute()
+        except EXC as e:
+            ctx.fail(sig + ":raises", dict(here, error=repr(e)), "a rechunk that the documentation accepts raises")
+            return False
+        if now != got:
+            ctx.fail(sig + ":late-chunks", dict(here, at_call=repr(got), later=repr(now)), "y.chunks changes after the call when the configuration changes")
+            return False
+        if opt != got or blk != got:
+            ctx.fail(sig + ":optimize", dict(here, advertised=repr(got), optimized=repr(opt), blocks=repr(blk)),
+                     "advertised .chunks, optimized .chunks and the shapes of the produced blocks disagree")
+            return False
+        if np.asarray(val).shape != ref.shape or not np.array_equal(val, ref):
+            ctx.fail(sig + ":values", dict(here, got=np.asarray(val).tolist(), want=ref.tolist()), "values change")
+            return False
+        return True
+
+    with warnings.catch_warnings():
+        warnings.simplefilter("ignore")
+        for i, cfg in enumerate(case["configs"]):
+            here = dict(case, step=i)
+            with dask.config.set(cfg):
+                if pending is not None:
+                    if not late(*pending, "under the next configuration"):
+                        return
+                    pending = None
+                try:
+                    b, ref = build(case) if (b0 is None or not case.get("reuse")) else b0
+                except EXC:
+                    return
+                if b0 is None:
+                    b0 = (b, ref)
+                    if isinstance(spec, tuple) and len(spec) != b.ndim:
+                        return
+                    if isinstance(spec, dict) and any(not (-b.ndim <= k < b.ndim) for k in spec):
+                        return
+                try:
+                    want = documented_chunks(b.chunks, b.shape, b.dtype, spec, kw)
+                except Exception:
+                    return
+                try:
+                    y = b.rechunk(spec, **kw)
+                    got = tuple(tuple(c) for c in y.chunks)
+                except EXC as e:
+                    ctx.fail(sig + ":raises", dict(here, error=repr(e)), "x.rechunk(spec) raises for an accepted spec")
+                    return
+                layouts.append(got)
+                if got != want:
+                    ctx.fail(sig + ":chunks", dict(here, got=repr(got), want=repr(want), config_in_effect=cfg),
+                             "x.rechunk(spec).chunks differs from normalizing the spec under the configuration in effect at the call")
+                    return
+                axes = resolve_axes(spec, b.chunks)
+                autos = [isinstance(a, str) for a in axes]
+                if any(autos):
+                    lim = kw.get("block_size_limit")
+                    for a in axes:
+                        if isinstance(a, str) and a != "auto":
+                            lim = _parse_bytes(a)
+                    if lim is None:
+                        lim = _parse_bytes(dask.config.get(CFG_SIZE))
+                    tol = dask.config.get(CFG_TOL)
+                    # (b) the same request with the limit in force passed explicitly, defaults set to a decoy
+                    try:
+                        with dask.config.set({CFG_SIZE: "3B"}):
+                            b2, _ = build(case)
+                            ref_chunks = tuple(tuple(c) for c in b2.rechunk(spec, **dict(kw, block_size_limit=lim)).chunks)
+                    except EXC as e:
+                        ctx.fail(sig + ":raises", dict(here, error=repr(e), which="explicit block_size_limit"), "x.rechunk(spec, block_size_limit=) raises")
+                        return
+                    if ref_chunks != got:
+                        ctx.fail(sig + ":explicit-limit", dict(here, got=repr(got), want=repr(ref_chunks), limit_in_force=lim),
+                                 "x.rechunk(spec) under a configured array.chunk-size differs from x.rechunk(spec, block_size_limit=that value)")
+                        return
+                    # (c) brute-force byte budget per block (itemsize x the largest block), as normalize_chunks documents it:
+                    # within tolerance x limit unless the non-auto axes alone are over the limit
+                    if not kw.get("balance") and not any(0 in xc for a, xc in zip(autos, b.chunks) if a):
+                        itemsize = b.dtype.itemsize
+                        fixed = itemsize * math.prod(max(c) for c, a in zip(got, autos) if not a)
+                        block = max(itemsize * math.prod(c[j] for c, j in zip(got, idx)) for idx in itertools.product(*(range(len(c)) for c in got)))
+                        if fixed <= lim and Fraction(block) > Fraction(tol) * lim:
+                            ctx.fail(sig + ":budget", dict(here, got=repr(got), block_bytes=block, limit_in_force=lim, tolerance=tol),
+                                     "a block of x.rechunk(spec) is larger than tolerance x the byte limit in force at the call")
+                            return
+                if case.get("late"):
+                    pending = (i, y, got, ref)
+                elif not late(i, y, got, ref, "under the configuration of the call"):
+                    return
+        if pending is not None:
+            with dask.config.set({CFG_SIZE: "5B", CFG_THR: 1}):
+                if not late(*pending, "under an unrelated configuration"):
+                    return
+    if collect is not None and len(case["configs"]) > 1:
+        collect.append((case, layouts[-1]))
+    ctx.count(("cfgseq", case["wrap"], case.get("speckind"), len(case["shape"]), min(len(set(layouts)), 3), case.get("vary"),
+               bool(case.get("reuse")), bool(case.get("late")), bool(kw.get("balance")), "block_size_limit" in kw))
+
+
+def rand_auto_spec(rng, shape):
+    """(kind, spec, kwargs) with at least one axis left to 'auto' / a byte string, in every presentation."""
+    nd = len(shape)
+    kind = rng.choice(["auto", "auto", "tuple-auto", "tuple-auto", "dict-auto", "dict-auto", "bytes", "limit-kw", "balance-auto"])
+    kw = {}
+    other = lambda n: rng.choice([-1, None, rng.randint(1, max(1, n)), tuple(gen.rand_chunks(rng, n))])
+    if kind in ("auto", "limit-kw", "balance-auto"):
+        spec = "auto" if rng.random() < 0.5 else tuple("auto" if rng.random() < 0.6 else other(n) for n in shape)
+        if isinstance(spec, tuple) and "auto" not in spec:
+            spec = ("auto",) + spec[1:]
+    elif kind == "tuple-auto":
+        spec = [other(n) for n in shape]
+        spec[rng.randrange(nd)] = "auto"
+        spec = tuple(spec)
+    elif kind == "dict-auto":
+        axes = [a for a in range(nd) if rng.random() < 0.5]
+        spec = {(a - nd if rng.random() < 0.3 else a): other(shape[a]) for a in axes}
+        a = rng.randrange(nd)
+        spec.pop(a, None), spec.pop(a - nd, None)
+        spec[a - nd if rng.random() < 0.3 else a] = "auto"
+    else:
+        spec = None
+    return kind, spec, kw
+
+
+def search_cfgseq(ctx):
+    rng = ctx.rng
+    collect = []
+    for i in range(ctx.scale(260, 2500)):
+        case = rand_case(rng, rng.choice([6, 12, 24]))
+        if case["wrap"] in ("store", "store-slice"):
+            case["wrap"] = "io"
+        try:
+            b, _ = build(case)
+        except EXC:
+            continue
+        nbytes = max(1, b.dtype.itemsize * math.prod(b.shape))
+        sizes = sorted({b.dtype.itemsize, max(1, nbytes // 64), max(1, nbytes // 16), max(1, nbytes // 4), max(1, nbytes // 2), nbytes, 4 * nbytes, 2**27})
+        kind, spec, kw = rand_auto_spec(rng, b.shape)
+        if kind == "bytes":
+            v = rng.choice(sizes)
+            spec = f"{v}B" if rng.random() < 0.5 else tuple(rng.choice([f"{v}B", f"{v}B", -1, None]) for _ in b.shape)
+            if isinstance(spec, tuple) and not any(isinstance(a, str) for a in spec):
+                spec = f"{v}B"
+        elif kind == "limit-kw":
+            kw["block_size_limit"] = rng.choice(sizes)
+        elif kind == "balance-auto":
+            kw["balance"] = True
+        if rng.random() < 0.12:  # control group: explicit kinds must not react to the configuration at all
+            kind, spec, kw = rand_spec(rng, b.shape)
+            kind = "ctl-" + kind
+        vary = rng.choice(["size", "size", "size", "tolerance", "size+tolerance", "threshold", "all"])
+        # limits that matter for this array: between one element and the whole array (beyond, every layout is the same)
+        inner = [v for v in sizes if v <= nbytes] + [nbytes]
+        base = {CFG_SIZE: rng.choice(inner)}
+        seq = []
+        nseq = rng.choice([2, 2, 3, 3, 4])
+        tols = rng.sample([1.0, 1.1, 1.25, 1.5, 2.0, 4.0, 8.0], nseq)
+        if vary == "tolerance":  # the tolerance decides between merging and splitting the old chunks when the limit is mid-range
+            base[CFG_SIZE] = max(b.dtype.itemsize, nbytes // rng.choice([2, 3, 4, 6, 8, 12, 16]))
+        pool = rng.sample(sizes, min(nseq, len(sizes))) if rng.random() < 0.7 else [rng.choice(sizes) for _ in range(nseq)]
+        for j in range(nseq):
+            cfg = dict(base)
+            if vary in ("size", "size+tolerance", "all"):
+                v = pool[j % len(pool)]
+                cfg[CFG_SIZE] = v if rng.random() < 0.6 else f"{v}B"
+            if vary in ("tolerance", "size+tolerance", "all"):
+                cfg[CFG_TOL] = tols[j % len(tols)]
+            if vary in ("threshold", "all"):
+                cfg[CFG_THR] = rng.choice([1, 2, 4, 16, 1000])
+            seq.append(cfg)
+        if vary == "size" and rng.random() < 0.5:
+            seq.sort(key=lambda c: _parse_bytes(c[CFG_SIZE]), reverse=rng.random() < 0.5)  # generous -> tight / tight -> generous
+        if rng.random() < 0.5:
+            seq.append(dict(seq[0]))  # A, B, ..., A
+        case.update(kind="cfgseq", speckind=kind, spec=enc_spec(spec), kw=kw, configs=seq, vary=vary,
+                    reuse=rng.random() < 0.4, late=rng.random() < 0.4)
+        check_cfgseq_case(ctx, case, collect)
+        if i % 40 == 0:
+            ctx.sample({"case": case})
+    compare_with_fresh(ctx, collect)
+
+
+# ------------------------------------------------------------------ huge lazy arrays
+
+def _walk(n, c):
+    """Brute-force integer walk along an axis: take c, take c, ... (the number of blocks is small by construction)."""
+    if n == 0:
+        return (0,)
+    out, left = [], n
+    while left > 0:
+        out.append(min(c, left))
+        left -= out[-1]
+    return tuple(out)
+
+
+def check_huge_case(ctx, case):
+    """x = da.zeros(huge shape, chunks=...) (metadata only), optionally under elemwise / transpose; explicit spec kinds:
+    y.chunks == brute-force walk == y.optimize().chunks.  Nothing is computed."""
+    import dask_array as da
+
+    shape = tuple(case["shape"])
+    spec = dec_spec(case["spec"])
+    with warnings.catch_warnings():
+        warnings.simplefilter("ignore")
+        try:
+            x = da.zeros(shape, chunks=tuple(tuple(c) for c in case["chunks"]), dtype="int8")
+            if case["wrap"] == "elem":
+                x = x + 1
+            elif case["wrap"] == "tr":
+                x = x.T
+                shape = shape[::-1]
+        except EXC:
+            return
+        xchunks = tuple(tuple(c) for c in x.chunks)
+        want = []
+        for a, n, xc in zip(resolve_axes(spec, xchunks), shape, xchunks):
+            want.append((n,) if isinstance(a, int) and a == -1 else _walk(n, a) if isinstance(a, int) else tuple(a))
+        want = tuple(want)
+        try:
+            y = x.rechunk(spec)
+            got = tuple(tuple(c) for c in y.chunks)
+            opt = tuple(tuple(c) for c in y.optimize().chunks)
+        except EXC as e:
+            ctx.fail("rechunk:huge:raises", dict(case, error=repr(e)), "x.rechunk(spec) on a lazy array with a huge axis raises for an accepted spec")
+            return
+    ctx.count(("huge", case["wrap"], type(spec).__name__, len(shape), got == xchunks))
+    if got != want:
+        ctx.fail("rechunk:huge:chunks", dict(case, got=repr(got), want=repr(want)),
+                 "x.rechunk(spec).chunks on a huge lazy axis differs from the brute-force walk (c, c, ..., smaller last block)")
+    elif opt != got:
+        ctx.fail("rechunk:huge:optimize", dict(case, advertised=repr(got), optimized=repr(opt)), "optimized .chunks differ from the advertised ones")
+
+
+def search_huge(ctx):
+    rng = ctx.rng
+
+    def axis():
+        while True:
+            ce = rng.randint(47, 60)
+            c = rng.choice([2**ce, 2**ce, 2**ce + 1, 2**ce - 1, 3 * 2**(ce - 1), rng.randint(2**ce, 2**(ce + 1))])
+            k = rng.choice([1, 2, 3, 5, 8, 16, 17, 33])
+            n = k * c + rng.choice([-2, -1, 0, 1, 1, 2, rng.randint(0, c - 1)])
+            if 2**53 <= n < 2**62:
+                return n, c
+
+    def part(n, parts):
+        cuts = sorted(rng.randint(1, n - 1) for _ in range(parts - 1))
+        return [v for v in (b - a for a, b in zip([0] + cuts, cuts + [n])) if v > 0]
+
+    for i in range(ctx.scale(400, 6000)):
+        rank = rng.choice([1, 2, 2])
+        hpos = rng.randrange(rank)
+        shape, chunks, spec = [], [], []
+        for d in range(rank):
+            if d == hpos:
+                n, c = axis()
+                chunks.append(part(n, rng.randint(1, 6)) if rng.random() < 0.6 else list(_walk(n, c * rng.choice([1, 2, 3]))))
+                spec.append(rng.choice([c, c, c, -1, None, tuple(part(n, rng.randint(1, 6))), _walk(n, c)]))
+            else:
+                n = rng.randint(1, 6)
+                chunks.append(list(gen.rand_chunks(rng, n)))
+                spec.append(rng.choice([rng.randint(1, n), -1, None, tuple(gen.rand_chunks(rng, n))]))
+            shape.append(n)
+        wrap = rng.choice(["zeros", "zeros", "elem", "tr"])
+        if wrap == "tr":
+            spec = spec[::-1]
+        form = rng.random()
+        if form < 0.35:
+            sp = {(d - rank if rng.random() < 0.3 else d): v for d, v in enumerate(spec) if v is not None or rng.random() < 0.5}
+            if not sp:
+                sp = tuple(spec)
+        elif form < 0.45 and rank == 1 and isinstance(spec[0], int):
+            sp = spec[0]
+        else:
+            sp = tuple(spec)
+        case = {"kind": "huge", "shape": shape, "chunks": chunks, "wrap": wrap, "spec": enc_spec(sp)}
+        check_huge_case(ctx, case)
+        if i % 100 == 0:
+            ctx.sample({"case": case})
+
+
 # ------------------------------------------------------------------------ correspondence
 
 def f_spec_tok(v):
@@ -954,7 +1327,10 @@ def run(ctx, replay=None):
         "transpose, concatenate, expand_dims / composed with a slice / rechunk of rechunk) × spec kind (10 kinds) incl. "
         "zero-width chunks; unknown-size arrays × (un)changed axis; random programs with rechunk steps; distinct = "
         "(graph shape, spec kind, rank, zero-width, balance) / (unknown: outcome × changed) / (program: op, length, rank); "
-        "correspondence: (family, model output prefix, size class)"
+        "correspondence: (family, model output prefix, size class); call histories: the same rechunk under 2-5 configurations "
+        "(array.chunk-size / -tolerance / rechunk.threshold) in one process, distinct = (graph shape, spec kind, rank, #distinct "
+        "layouts, what varies, same/fresh array, examined under the call's / the next configuration); huge lazy axes "
+        "(2^53..2^62) x explicit spec kinds, chunks only"
     )
     ctx.assumptions += [
         "the expectation for 'auto' / byte-string / block_size_limit specs calls dask_array._core_utils.normalize_chunks "
@@ -977,6 +1353,13 @@ def run(ctx, replay=None):
             check_dictnone_case(ctx, case)
         elif k == "history":
             check_history_case(ctx, case)
+        elif k == "cfgseq":
+            collect = []
+            check_cfgseq_case(ctx, {kk: v for kk, v in case.items() if kk not in ("step", "examined", "got", "want", "error", "fresh_check")}, collect)
+            if case.get("fresh_check"):
+                compare_with_fresh(ctx, collect)
+        elif k == "huge":
+            check_huge_case(ctx, case)
         elif k == "program":
             check_program(ctx, case["prog"])
         elif k == "layer":
@@ -994,5 +1377,7 @@ def run(ctx, replay=None):
     corr_layer(ctx, R)
     search(ctx)
     search_extra(ctx)
+    search_cfgseq(ctx)
+    search_huge(ctx)
     if ctx.disagreements:
         targeted(ctx, R)
